@@ -29,7 +29,7 @@ func sceneFor(name string) SceneOpts {
 	case "vesting":
 		o.VestBlocks = 3
 		o.MaxVestings = 3
-	case "chain":
+	case "chain", "chain-o":
 		o.Lifetime = 3
 		o.Expiry = 3600
 		o.BurnEpoch = "five_minutes"
@@ -93,7 +93,11 @@ func prepScene(d *Driver, name string) {
 			// pool 3: an ORACLE pool without leverage / perpetual trading (no accounted pool: priced from its own reserves)
 			Step{"a": "createPool", "kind": "oracle", "fee": "0.001", "d1": "uusdt", "d2": "uusdc", "a1": "500000000000", "a2": "500000000000"},
 			Step{"a": "block"})
-	case "positions", "orders", "chain":
+	case "positions", "orders", "chain", "chain-o":
+		elysPoolKind := "bal"
+		if name == "chain-o" { // variant of the fault-injecting scene: the Elys pool is an oracle pool too (it prices Eden)
+			name, elysPoolKind = "chain", "oracle"
+		}
 		if name == "chain" {
 			// a token the oracle and the asset profile have never heard of (fees may be paid in it)
 			ctx := c.AdminCtx()
@@ -115,7 +119,7 @@ func prepScene(d *Driver, name string) {
 		// pool 1: oracle pool uatom/uusdc with leverage + perpetual enabled; pool 2: balancer uelys/uusdc
 		mk(Step{"a": "createPool", "kind": "oracle", "fee": "0.001", "d1": "uatom", "d2": "uusdc", "a1": "200000000000", "a2": "1000000000000"},
 			Step{"a": "block"},
-			Step{"a": "createPool", "kind": "bal", "fee": "0.003", "d1": "uelys", "d2": "uusdc", "a1": "300000000000", "a2": "900000000000"},
+			Step{"a": "createPool", "kind": elysPoolKind, "fee": "0.003", "d1": "uelys", "d2": "uusdc", "a1": "300000000000", "a2": "900000000000"},
 			Step{"a": "block"})
 		mk(Step{"a": "enableLev", "p": float64(1)})
 		mk(Step{"a": "bond", "u": "u4", "sz": "2000000000000"}, Step{"a": "block"})
